@@ -84,6 +84,10 @@ fn main() {
             let all_mut: Vec<Slot> = lm.all_slot_occurrences_mut().into_iter().map(|s| *s).collect();
             let mut lm2 = l.clone();
             let pub_mut: Vec<Slot> = lm2.public_slot_occurrences_mut().into_iter().map(|s| *s).collect();
+            let mut lm3 = l.clone();
+            let priv_mut_slots: Vec<Slot> = lm3.private_slot_occurrences_mut().into_iter().map(|s| *s).collect();
+            let priv_mut = names(priv_mut_slots, &mut ex);
+            let refreshed = l.refresh_private();
             let mut slots: Vec<u32> = l.slots().iter().map(|s| nameof(*s, &nm, &mut ex)).collect();
             slots.sort();
             let (sh, bij) = l.weak_shape();
@@ -98,7 +102,8 @@ fn main() {
             let mut bijp: Vec<(u32, u32)> = bij.iter().map(|(k, v)| (nameof(k, &nm, &mut ex), nameof(v, &nm, &mut ex))).collect();
             bijp.sort();
             json!({"i": i, "node": n, "shape_key": format!("{sh:?}"), "shape": abstract_node(&sh, n, &nm), "bij": bijp,
-                   "back": abstract_node(&back, n, &nm), "all": all, "pub": pb, "priv": pv,
+                   "back": abstract_node(&back, n, &nm), "all": all, "pub": pb, "priv": pv, "priv_mut": priv_mut,
+                   "refreshed": abstract_node(&refreshed, n, &nm), "refreshed_slots_same": refreshed.slots() == l.slots() && refreshed.weak_shape().0 == sh,
                    "mut_same": all_mut == l.all_slot_occurrences() && pub_mut == l.public_slot_occurrences(),
                    "slots": slots, "shape_idem": sh2 == sh, "rot_same": sh_rot == sh, "syntax_ok": syn_ok, "panic": false,
                    "nchildren_ok": l.applied_id_occurrences().len() == n.ch.len()})
